@@ -14,6 +14,7 @@ from concurrent.futures import ThreadPoolExecutor
 
 import pv
 import diffrun
+import props.c11api as A
 
 # (driver family, Props modules, [(protocol name, hashlib name or None, block size)])
 FAMILIES = [
@@ -25,6 +26,7 @@ FAMILIES = [
 ]
 BIG_ALGS = {"hashmd": ["md5", "sha1", "sha256"]}       # >= 2^32 single update, thorough tier
 BIG_N = 4294967301                                       # 2^32 + 5
+COUNTER_ALGS = {"hashmd": ["md5", "sha1", "sha256"]}   # 32-bit byte counters: `len_low >> 29` matters from 2^29 bytes on
 
 HASHLIB = {p: h for _, _, algs in FAMILIES for p, h, _ in algs}
 
@@ -32,63 +34,29 @@ HASHLIB = {p: h for _, _, algs in FAMILIES for p, h, _ in algs}
 # ---------------------------------------------------------------------------------------------
 # independent oracle: the protocol interpreted over hashlib
 
+class _HL:
+    """hashlib object behind the oracle interface of props/c11api.py"""
+    def __init__(self, alg):
+        self.h = hashlib.new(HASHLIB[alg])
+        self.digest_size = self.h.digest_size
+
+    def absorb(self, b):
+        self.h.update(b)
+
+    def absorbz(self, n):
+        z = bytes(min(n, 1 << 26))
+        while n > 0:
+            k = min(n, len(z))
+            self.h.update(z if k == len(z) else z[:k])
+            n -= k
+
+    def hexdigest(self):
+        return self.h.hexdigest()
+
+
 def oracle_lines(ops):
     """expected answer line for every op, per the property (None where hashlib has no such algorithm)"""
-    out = []
-    h = None
-    name = None
-    closed = False
-    known = True
-    for line in ops:
-        t = line.split()
-        if not t:
-            continue
-        if t[0] == "new" and len(t) == 2:
-            name = t[1]
-            if name not in HASHLIB:
-                h, known = None, False
-                out.append(None)
-            else:
-                known = HASHLIB[name] is not None
-                h = hashlib.new(HASHLIB[name]) if known else None
-                closed = False
-                out.append("ok")
-        elif name is None or name not in HASHLIB:
-            out.append(None)
-        elif not known:
-            out.append(None)
-        elif t[0] == "upd" and len(t) == 2:
-            if not closed and t[1] != "-":
-                h.update(bytes.fromhex(t[1]))
-            out.append("ok")
-        elif t[0] == "updz" and len(t) == 2:
-            n = int(t[1])
-            if not closed:
-                z = bytes(min(n, 1 << 26))
-                while n > 0:
-                    k = min(n, len(z))
-                    h.update(z if k == len(z) else z[:k])
-                    n -= k
-            out.append("ok")
-        elif t[0] == "str" and len(t) == 1:
-            closed = True
-            out.append(h.hexdigest())
-        elif t[0] == "dig" and len(t) <= 2:
-            cap = int(t[1]) if len(t) == 2 else 64
-            if h.digest_size > cap:
-                out.append("0 ")
-            else:
-                closed = True
-                out.append("%d %s" % (h.digest_size, h.hexdigest()))
-        elif t[0] == "len" and len(t) == 1:
-            out.append(str(h.digest_size))
-        elif t[0] == "reset" and len(t) == 1:
-            h = hashlib.new(HASHLIB[name])
-            closed = False
-            out.append("ok")
-        else:
-            out.append("bad-op")
-    return out
+    return A.expected(ops, lambda alg: _HL(alg) if HASHLIB.get(alg) else None)
 
 
 def oracle_judge(fam, ops):
@@ -131,17 +99,33 @@ def oracle_campaign(chk, fam, cases, label, batch=60):
         if oracle_judge(fam, joined) is None:
             chk.cov["oracle_hashlib_cases"] = chk.cov.get("oracle_hashlib_cases", 0) + len(b)
             continue
+        hit = False
         for c in b:
             r = oracle_judge(fam, list(c))
+            for _ in range(6 if any(o.startswith("par ") for o in c) else 0):      # threads: a race may need several runs
+                r = r or oracle_judge(fam, list(c))
             if r is None:
                 chk.cov["oracle_hashlib_cases"] = chk.cov.get("oracle_hashlib_cases", 0) + 1
                 continue
+            hit = True
             small = oracle_shrink(fam, list(c)[: r["at"] + 1])
             r2 = oracle_judge(fam, small) or r
             if chk.violation("\n".join(small) + "\n", "%s hashlib oracle: %s" % (label, r2["detail"])):
                 found = True
             if len(chk.violations) >= 3:
                 return found
+        if not hit:
+            # wrong only when the cases follow each other in one process (state surviving free / new / reset):
+            # drop whole cases from the front while the run stays wrong, report what is left
+            cs = [list(c) for c in b]
+            while len(cs) > 1 and oracle_judge(fam, [o for c in cs[1:] for o in c + ["reset"]]) is not None:
+                cs = cs[1:]
+            while len(cs) > 1 and oracle_judge(fam, [o for c in cs[:-1] for o in c + ["reset"]]) is not None:
+                cs = cs[:-1]
+            joined = [o for c in cs for o in c + ["reset"]]
+            r = oracle_judge(fam, joined) or {"detail": "differs only in sequence"}
+            if chk.violation("\n".join(joined) + "\n", "%s hashlib oracle (only when the cases run one after the other in one process): %s" % (label, r["detail"])):
+                found = True
     return found
 
 
@@ -340,6 +324,8 @@ def run(chk):
             for n in boundaries(B):                  # the boundary lengths again, different chunkings
                 for _ in range(4 * reps):
                     cases.append(gen_case(rng, chk, alg, B, hl, n))
+        api_algs = [(a, B, hashlib.new(hn).digest_size) for a, hn, B in algs]
+        cases += A.cases(rng, chk, api_algs, thorough, exh_algs=[x for x in api_algs if x[0] in ("md5", "sha1", "sha256", "sha512")])
         longs = []
         for alg, hname, B in algs:
             hl = hashlib.new(hname).digest_size if hname else 32
@@ -355,6 +341,33 @@ def run(chk):
         f2, c2, t2 = diffrun.campaign(chk, fam, longs, proof_ok, detail, signature_of, "C11 " + fname, batch=4)
         found |= f1 or f2
         corr, thm = corr or c1 or c2, thm or t1 or t2
+        # the bit-length words: from 2^29 bytes on `len_low >> 29` is non-zero in finish(); from 2^32 - 2^29 on its three
+        # bits are all set.  Implementation (uninstrumented -O2 build) vs hashlib only; reset afterwards must forget it.
+        if fname in COUNTER_ALGS and not found:
+            try:
+                fast = pv.build_harness("hash", cfg, ["hash.c"], san="plain", opt="-O2")
+            except pv.BuildError:
+                fast = exe
+            ffam = HashFamily(fname, fast, timeout=900)
+            probes = []
+            for a in COUNTER_ALGS[fname]:
+                k = rng.randrange(1, 200)
+                probes.append(["new " + a, "upd 61", "updz %d" % ((1 << 29) + k), "str", "reset", "upd 616263", "str"])
+                if thorough:
+                    probes.append(["new " + a, "upd 61", "updz %d" % ((1 << 32) - (1 << 29) + k), "str"])
+            if thorough:
+                probes.append(["new sha512", "upd 61", "updz %d" % BIG_N, "str"])
+                probes.append(["new sha384", "updz %d" % (1 << 32), "upd 61", "str"])
+            with ThreadPoolExecutor(max(1, min(len(probes), pv.NCPU // 2))) as ex:
+                pres = list(ex.map(lambda c: oracle_judge(ffam, c), probes))
+            for c, r in zip(probes, pres):
+                chk.count("\n".join(c))
+                chk.bump("message>=2^29-bytes")
+                if r is not None:
+                    if chk.violation("\n".join(c) + "\n", "C11 %s hashlib oracle: %s" % (fname, r["detail"])):
+                        found = True
+                else:
+                    chk.cov["oracle_hashlib_cases"] = chk.cov.get("oracle_hashlib_cases", 0) + 1
         # >= 2^32 bytes in one update.  Thorough tier; also whenever the proof stage is broken
         # (the search of DESIGN §2.4: the translator rejecting the update shape points here).
         bigs = BIG_ALGS.get(fname, [])
@@ -395,7 +408,12 @@ def run(chk):
     chk.cov["rule"] = ("op files new/upd/updz/str/dig/len/reset per algorithm: every message length 0..3B+1 (B = block size) with random content "
                        "(random, all-zero, all-ones, 0x80-led) and random chunkings biased to block and padding boundaries, empty updates, "
                        "too-small digest buffers, repeated reads, updates after a read, reset; published vectors; random long messages up to 1 MiB; "
-                       "thorough: one update of 2^32+5 bytes vs the same bytes in smaller updates. Every op file is judged three ways: "
+                       "entry points and arguments (props/c11api.py): four handle slots with several live objects interleaved, every integer type code "
+                       "(newt: valid, invalid), get_type, free / re-create, NULL data / NULL buffer / NULL length / NULL hash, unaligned input (updo1..7), "
+                       "too-small buffers after the read, output-buffer canary, random histories over all ops, every history of at most 3 (thorough 4) ops over "
+                       "{1, B-1, B bytes, reset, str, dig, too-small dig} for md5/sha1/sha256/sha512/sha3-256/gost, objects used by 2..8 threads at once (par); "
+                       "messages of 2^29+k bytes (len_low >> 29 non-zero; then reset) against hashlib on an -O2 build; "
+                       "thorough: one update of 2^32+5 bytes vs the same bytes in smaller updates, 2^32-2^29+k bytes, sha512/sha384 single updates >= 2^32. Every op file is judged three ways: "
                        "implementation vs model, vs the Lean one-shot spec, vs Python hashlib. Distinct by op-file hash; non-trivial = more than one op")
     chk.cov["exhaustive"] = False
     chk.assumptions += ["little-endian platform (PLIBSYS_IS_BIGENDIAN undefined; re-extracted on every run)",
